@@ -191,13 +191,17 @@ def fam_c11(tier, rng):
     scs = []
     for n in range({"quick": 24, "thorough": 200}[tier]):
         # the worker serves `mine*` actors; `foreign*` jobs share its queues but have no actor here
-        nq = rng.randint(1, 2)
+        # (`misplaced': a job named like an actor of this worker, but waiting in another of its queues than the one that
+        #  actor is registered for -- the consumer of a queue takes only the topics registered for that queue)
+        nq = rng.randint(1, 3)
         actors = {f"mine{q}": {"queue": f"q{q}"} for q in range(nq)}
         jobs = []
         for k in range(rng.randint(2, 8)):
             mine = rng.random() < 0.6
             q = rng.randrange(nq)
-            jobs.append({"id": f"m{k}", "actor": f"mine{q}" if mine else f"foreign{rng.randrange(2)}", "queue": f"q{q}",
+            misplaced = (not mine) and nq > 1 and rng.random() < 0.5
+            other = f"mine{(q + 1 + rng.randrange(nq - 1)) % nq}" if misplaced else None
+            jobs.append({"id": f"m{k}", "actor": f"mine{q}" if mine else (other or f"foreign{rng.randrange(2)}"), "queue": f"q{q}",
                          "script": ["ok"], "dur_ms": [rng.choice([0, 50])], "at_ms": rng.choice([0, 0, 200]),
                          "must_run": mine, "foreign": not mine})
         scs.append(default_scenario(jobs=jobs, actors=actors, worker={"tasks_limit": rng.choice([1, 3]), "messages_limit": 0, "grace_s": 0.5},
